@@ -85,4 +85,5 @@ def origin(it, b):
             return cbor.lift_native(cbor2.loads(b.conc))
         except Exception:
             return None
-    return getattr(it, "enc_origins", {}).get(b.e.sexpr())
+    from .cbor import okey
+    return getattr(it, "enc_origins", {}).get(okey(b.e))
